@@ -133,6 +133,31 @@ func checkNames(res *Result, d [][][]nslot, want []int, np int, what string, cs 
 	if want != nil && !reflect.DeepEqual(got, want) {
 		res.violation(Finding{Property: "C15", Aspect: "labelling", What: what + ": pseudo-names differ from the specification's labelling", Case: cs, Input: []byte(dump), Expected: want, Observed: got})
 	}
+	// the labelling is the snapshot's: aggregating (which generalises pointer arguments in the
+	// buckets) leaves it as it was
+	for _, lv := range []stack.Similarity{stack.AnyPointer, stack.AnyValue} {
+		_ = on.Aggregate(lv)
+		if again, _ := walkNames(on); !reflect.DeepEqual(again, got) {
+			res.violation(Finding{Property: "C15", Aspect: "after-aggregate", What: fmt.Sprintf("%s: after aggregating at level %d the snapshot's pseudo-names are no longer the labelling", what, lv), Case: cs, Input: []byte(dump), Expected: got, Observed: again})
+			break
+		}
+	}
+	// a snapshot handed back together with a parse error is labelled like any other
+	{
+		faulted := dump + "\ngoroutine 99 [running]:\nmain.x()\nthis is not a file line\n"
+		fs, _, ferr := stack.ScanSnapshot(strings.NewReader(faulted), discard{}, &stack.Opts{NameArguments: true})
+		if fs != nil && ferr != nil && len(fs.Goroutines) >= len(d) {
+			fgot, _ := walkNames(fs)
+			ref := want
+			if ref == nil {
+				ref = got
+			}
+			if !reflect.DeepEqual(fgot, ref) {
+				res.violation(Finding{Property: "C15", Aspect: "faulted", What: what + ": the snapshot returned together with a parse error (malformed goroutine after the dump) does not carry the labelling", Case: cs, Input: []byte(faulted), Expected: ref, Observed: fgot})
+			}
+			res.count("faulted_snapshots_checked", 1)
+		}
+	}
 	offNames, _ := walkNames(off)
 	for _, n := range offNames {
 		if n != 0 {
